@@ -309,6 +309,9 @@ def check_main(argv):
         env["VERIF_EXAMPLES"] = str(args.examples)
     run_dir = os.path.join(OUT, f"{pid}-{args.tier}-{seed}")
     os.makedirs(run_dir, exist_ok=True)
+    for fn in os.listdir(run_dir):
+        if fn.startswith("violation-"):
+            os.remove(os.path.join(run_dir, fn))
     for sh in range(shards):
         outfile = os.path.join(run_dir, f"shard{sh}.json")
         if os.path.exists(outfile):
